@@ -73,10 +73,11 @@ def after_every_prelude(battery, name="battery_after_every_kind_of_earlier_conne
     def make():
         from . import build
         for kind in build.PRELUDE_KINDS:
-            for same in (True, False):
+            for same, managed in ((True, False), (True, True), (False, False)):
+                # (managed: the earlier connection was made inside a "with ws:" block on the same object)
                 for end in build.PRELUDE_ENDS:
                     for case in battery:
-                        yield dict(case, prelude={"kind": kind, "same": same, "end": end})
+                        yield dict(case, prelude={"kind": kind, "same": same, "end": end, "with": managed})
     return Enumeration(name, make, exhaustive=True)
 
 
